@@ -26,6 +26,7 @@ type Harness struct {
 	ShardsT  int // shards in the thorough tier (default = Shards)
 	Weight   int // rough seconds, for scheduling
 	MaxPaths int
+	MaxSteps int64 // interpreter steps per path (default 4e6)
 	Bounds   string
 	File     string
 	ExpectAbort []string // abort reasons (substring) that are part of the stated bounds
@@ -68,6 +69,8 @@ func scanHarnesses() ([]Harness, error) {
 					h.Weight, _ = strconv.Atoi(v)
 				case "maxpaths":
 					h.MaxPaths, _ = strconv.Atoi(v)
+				case "maxsteps":
+					h.MaxSteps, _ = strconv.ParseInt(v, 10, 64)
 				case "sharddepth":
 					h.ShardDepth, _ = strconv.Atoi(v)
 				case "qtimeout":
